@@ -428,6 +428,40 @@ pub fn check_history_cross(opsv: &[Op], sel: &[u8]) -> Check {
     })
 }
 
+/// evaluate a formula, convert the NamedSymbol diagram with `BDD::<usize>::from`, compare with the
+/// independent canonical diagram over the symbols' ids
+pub fn check_conversion(text: &str) -> Check {
+    let case = json!({"kind": "conversion", "text": text});
+    let v = |m: String| Violation::new(m, case.clone());
+    guarded(&case.clone(), || {
+        let names_all = {
+            let p = crate::rparse::parse_text(text.as_bytes()).map_err(|e| v(format!("HARNESS: {}", e)))?;
+            crate::rlex::identifiers(&p.tokens)
+        };
+        let limit = (1usize << names_all.len().min(16)) + 2;
+        let (r, pf) = match crate::front::run_text(text.as_bytes(), None, Some(limit)) {
+            crate::front::Run::Ok(r, pf) => (r, pf),
+            _ => return Ok(()), // C01 / C12 judge acceptance and termination
+        };
+        let ids: Vec<usize> = pf.vars.iter().map(|s| s.id).collect();
+        let names: Vec<String> = pf.vars.iter().map(|s| s.name.as_ref().clone()).collect();
+        let table = crate::front::table_by_name(&r, &names).map_err(|e| v(e))?;
+        let converted: BDD<usize> = BDD::<usize>::from(r.as_ref().clone());
+        let expect = plain::build(&table, &ids);
+        if &converted != expect.as_ref() {
+            return Err(v(format!(
+                "BDD::<usize>::from gives {} but the canonical diagram of the same function over the ids is {}",
+                plain::render(&converted),
+                plain::render(&expect)
+            )));
+        }
+        if converted.get_hash() != expect.get_hash() {
+            return Err(v("converted diagram hashes differently from an equal diagram".into()));
+        }
+        Ok(())
+    })
+}
+
 fn record_history(opsv: &[Op], st: &mut Stats) {
     st.eval();
     let mut kinds: Vec<String> = opsv.iter().map(|o| o.name()).collect();
@@ -526,6 +560,26 @@ pub fn run(ctx: &mut Ctx) -> Result<(), Violation> {
     });
     ctx.stage("random-histories-two-envs", false, r)?;
 
+    // BDD::<usize>::from(named diagram): the converted diagram is the canonical diagram of the same
+    // function over the symbols' ids
+    let cases = ctx.tier.pick(10_000, 300_000);
+    let r = par_random(ctx, "named-to-usize", cases, 300, |tape, st| {
+        let mut t = Tape::new(tape);
+        let mut cfg = crate::gen::Cfg::standard(2 + t.choose(5), 1 + t.choose(4));
+        cfg.big_consts = false;
+        cfg.max_list = 3;
+        let ast = crate::gen::formula(&mut t, &cfg);
+        let text = crate::rprint::plain(&ast);
+        st.eval();
+        st.class("named-diagram-converted-to-usize");
+        check_conversion(&text)?;
+        if st.nontrivial(crate::util::fnv_str(&text)) {
+            st.nt_sample(|| json!({"kind": "conversion", "text": text}));
+        }
+        Ok(())
+    });
+    ctx.stage("named-to-usize-conversion", false, r)?;
+
     let cases = ctx.tier.pick(40_000, 3_000_000);
     let r = par_random(ctx, "cross-env-histories", cases, 400, |tape, st| {
         let mut t = Tape::new(tape);
@@ -555,6 +609,7 @@ pub fn replay(case: &Value) -> Check {
             Some(o) => check_history(&o, None),
             None => Err(Violation::new("unreadable replay case", case.clone())),
         },
+        Some("conversion") => check_conversion(case["text"].as_str().unwrap_or("true")),
         Some("cross-history") => {
             let sel: Option<Vec<u8>> = case["env"].as_array().map(|a| a.iter().filter_map(|x| x.as_u64().map(|u| u as u8)).collect());
             match (ops::ops_from_json(&case["ops"]), sel) {
